@@ -16,7 +16,9 @@ EXPLANATION = (
     'result); every Tree.make_binary call site in the readers / Tree.of_nltk_tree that labels a node from a rule '
     'result takes symbol and head direction from the same result (or a head flag parsed from the file), and that '
     'result is guess_combinator_by_triplet(rules, node cat, left.cat, right.cat) of the very children passed; '
-    'guess_combinator_by_triplet returns the loop variable on a category match and <unk> only after exhaustion.')
+    'guess_combinator_by_triplet returns the loop variable on a category match and <unk> only after exhaustion.'
+    " The rule cache stores the callback's result vector untouched (positions are rule ids); no default argument of the readers evaluates the language at import time."
+)
 TRUSTED = ['clang-14 front end', 'CPython ast', 'sa/pyx.py normaliser', 'rule table DESIGN.md C12']
 
 READER_FILES = ['depccg/tree.py', 'depccg/tools/reader.py']
